@@ -27,6 +27,11 @@ func c05Populate(h *zz.H, c *cache.Cache, N int, twoTargets bool) []vLeafSpec {
 			l.target = c05DevB
 		}
 		k := h.Range("leaf_len", 1, h.Param("L", 2))
+		if h.Param("KEYED", 0) == 1 && h.Range("leaf_keyed", 0, 1) == 1 {
+			// a list entry: name{k1: v1, k2: v2} (+ k-1 plain elements); index = name, v1, v2, ...
+			l.keyed = true
+			k += 2
+		}
 		for j := 0; j < k; j++ {
 			l.idx = append(l.idx, vName(h, "leaf"))
 		}
@@ -80,11 +85,38 @@ func c05Request(h *zz.H, mode pb.SubscriptionList_Mode, twoTargets bool) (*pb.Su
 		}
 		k := h.Range("sub_len", 0, h.Param("L", 2)+1)
 		for j := 0; j < k; j++ {
-			p.Elem = append(p.Elem, &pb.PathElem{Name: vName(h, "sub")})
+			e := &pb.PathElem{Name: vName(h, "sub")}
+			if j == 0 && h.Param("KEYED", 0) == 1 && h.Range("sub_keyed", 0, 1) == 1 {
+				// keyed list element; each key value may be the wildcard
+				e.Key = map[string]string{"k1": vName(h, "sub_k1"), "k2": vName(h, "sub_k2")}
+			}
+			p.Elem = append(p.Elem, e)
 		}
 		sl.Subscription = append(sl.Subscription, &pb.Subscription{Path: p})
 	}
 	return &pb.SubscribeRequest{Request: &pb.SubscribeRequest_Subscribe{Subscribe: sl}}, target
+}
+
+// c05SpecIndex: the index form of a subscription path as the specification gives it (written out
+// here, not computed with the code under test): origin (from the prefix, else from the path),
+// prefix elements, path elements; a keyed element contributes its name followed by its key
+// values in the order of the key names (k1 before k2).
+func c05SpecIndex(pre, p *pb.Path) []string {
+	var r []string
+	if pre.GetOrigin() != "" {
+		r = append(r, pre.GetOrigin())
+	} else if p.GetOrigin() != "" {
+		r = append(r, p.GetOrigin())
+	}
+	for _, pp := range []*pb.Path{pre, p} {
+		for _, e := range pp.GetElem() {
+			r = append(r, e.Name)
+			if len(e.Key) > 0 {
+				r = append(r, e.Key["k1"], e.Key["k2"])
+			}
+		}
+	}
+	return r
 }
 
 // c05Want: leaf l is in the matching snapshot of request sl.
@@ -94,11 +126,10 @@ func c05Want(h *zz.H, sl *pb.SubscriptionList, target string, l vLeafSpec) bool 
 	}
 	want := false
 	for _, s := range sl.Subscription {
-		q, err := path.CompletePath(sl.Prefix, s.Path)
-		if err != nil {
+		if _, err := path.CompletePath(sl.Prefix, s.Path); err != nil {
 			continue
 		}
-		want = zz.Or(want, vTreeMatch(q, l.idx))
+		want = zz.Or(want, vTreeMatch(c05SpecIndex(sl.Prefix, s.Path), l.idx))
 	}
 	return want
 }
